@@ -81,6 +81,18 @@ def em_d_update(m, classes, ys, xss):
     return num, den
 
 
+def normal_equation_gap(W, A1, A2, C, D):
+    """largest violation of  W_c A1_c = A2_c  (the M-step of a subspace phase), relative to the size of the terms"""
+    W, A1, A2 = np.asarray(W, dtype=float), np.asarray(A1, dtype=float), np.asarray(A2, dtype=float)
+    worst = 0.0
+    for c in range(C):
+        Wc, A2c = W[c * D:(c + 1) * D], A2[c * D:(c + 1) * D]
+        lhs = Wc @ A1[c]
+        scale = float(np.abs(A2c).max() + np.abs(Wc).max() * np.abs(A1[c]).max() + 1e-300)
+        worst = max(worst, float(np.abs(lhs - A2c).max()) / scale)
+    return worst
+
+
 def run(chk):
     chk.prove()
     r = gen.rng(chk.seed, "C09")
@@ -101,6 +113,11 @@ def run(chk):
             c0 = r.randrange(C)
             q0.n, q0.sum_px, q0.sum_pxx = np.array(q0.n, dtype=float), np.array(q0.sum_px, dtype=float), np.array(q0.sum_pxx, dtype=float)
             q0.n[c0], q0.sum_px[c0], q0.sum_pxx[c0] = 0.0, 0.0, 0.0
+        if i % 6 == 5:
+            # very small (fractional) counts throughout: the same model in other units of "number of frames" (soft counts of down-weighted data)
+            for Xi_ in classes:
+                for q_ in Xi_:
+                    q_.n, q_.sum_px, q_.sum_pxx = np.asarray(q_.n, dtype=float) * 1e-12, np.asarray(q_.sum_px, dtype=float) * 1e-12, np.asarray(q_.sum_pxx, dtype=float) * 1e-12
         X = [st for Xi in classes for st in Xi]
         y = np.array([k for k, p in enumerate(per) for _ in range(p)])
         if i % 2 == 1:
@@ -149,7 +166,15 @@ def run(chk):
         per_class_equals_whole("V", lambda mm: mm.e_step_v(X, y, per, n_acc, f_acc),
                                lambda mm, k, Xk: mm.e_step_v(Xk, [k] * len(Xk), per, n_acc, f_acc), "m_step_v", "V")
         for k in range(iters + 2):
-            m.m_step_v([m.e_step_v(X, y, per, n_acc, f_acc)])
+            acc_v_ = m.e_step_v(X, y, per, n_acc, f_acc)
+            a1_, a2_ = np.array(acc_v_[0], dtype=float), np.array(acc_v_[1], dtype=float)
+            m.m_step_v([acc_v_])
+            gap_ = normal_equation_gap(m.V, a1_, a2_, C, D)
+            if not gap_ <= 1e-7:
+                chk.fail("V phase: after the M-step V does not solve the EM normal equations V_c A1_c = A2_c of the accumulated statistics (relative gap %.3g; largest accumulated A1 entry %.3g)"
+                         % (gap_, float(np.abs(a1_).max())), dict(ctx, phase="V", iteration=k + 1))
+                okv = False
+                break
             cur = phase_v_marginal(m, classes)
             traj["V"].append(cur)
             if not cur >= prev - tolr * max(1.0, abs(prev)):
@@ -183,7 +208,14 @@ def run(chk):
         per_class_equals_whole("U", lambda mm: mm.e_step_u(X, y, per, ly),
                                lambda mm, k, Xk: mm.e_step_u(Xk, [k] * len(Xk), per, ly), "m_step_u", "U")
         for k in range(iters + 2):
-            m.m_step_u([m.e_step_u(X, y, per, ly)])
+            acc_u_ = m.e_step_u(X, y, per, ly)
+            b1_, b2_ = np.array(acc_u_[0], dtype=float), np.array(acc_u_[1], dtype=float)
+            m.m_step_u([acc_u_])
+            gap_ = normal_equation_gap(m.U, b1_, b2_, C, D)
+            if not gap_ <= 1e-7:
+                chk.fail("U phase: after the M-step U does not solve the EM normal equations U_c A1_c = A2_c of the accumulated statistics (relative gap %.3g; largest accumulated A1 entry %.3g)"
+                         % (gap_, float(np.abs(b1_).max())), dict(ctx, phase="U", iteration=k + 1))
+                break
             cur = phase_u_marginal(m, classes, ys)
             traj["U"].append(cur)
             if not cur >= prev - tolr * max(1.0, abs(prev)):
@@ -191,6 +223,19 @@ def run(chk):
                 break
             prev = cur
         lx = m.finalize_u(X, y, per, ly)
+        if i % 2 == 1:
+            # call order: after a complete U phase (incl. the final E[x] pass) U is replaced through the public setter; the next E/M pair is
+            # that of a FRESH machine given the same U, V, D (nothing derived from the old U is kept)
+            m2u = copy.deepcopy(m)
+            Unew = np.asarray(m2u.U) + gen.nprng(r).normal(size=np.asarray(m2u.U).shape) * 0.5
+            m2u.U = Unew
+            m2u.m_step_u([m2u.e_step_u(X, y, per, ly)])
+            m3u = fa.make_machine("jfa", copy.deepcopy(ubm), rU, rV, U=np.array(Unew), V=np.array(m.V), Dv=np.array(m.D), em_iterations=iters, random_state=seed)
+            m3u.m_step_u([m3u.e_step_u(X, y, per, ly)])
+            chk.count(1, key=("U reassigned", rU))
+            if not np.allclose(np.asarray(m2u.U), np.asarray(m3u.U), rtol=1e-9, atol=1e-12):
+                chk.fail("U phase after assigning a new U to a machine that had trained: the next E/M pair differs from that of a fresh machine with the same U, V, D (stale per-machine cache)",
+                         dict(ctx, phase="U", reassigned_U=hexlist(Unew), got=hexlist(m2u.U), fresh=hexlist(m3u.U)))
         xss = [np.asarray(lx[k]) for k in range(K)]
         # the hand-over of the point estimates is the same when the statistics come per class as Dask delayed lists (the layout the bag path builds)
         if i % 2 == 0:
